@@ -1069,5 +1069,61 @@ func runWatchdogArmed(p *Program, r *RuleResult) {
 			}
 		}
 	}
+	// every arming of the watchdog's timer uses the same duration
+	for _, fn := range p.SrcFuncs {
+		pk := fn.Pkg
+		if pk == nil || pk.Pkg.Path() != processPkg || fn.Parent() != nil {
+			continue
+		}
+		recvsHeartbeat := false
+		for _, g := range append([]*ssa.Function{fn}, allAnon(fn)...) {
+			for _, b := range g.Blocks {
+				for _, in := range b.Instrs {
+					if sel, ok := in.(*ssa.Select); ok {
+						for _, st := range sel.States {
+							if st.Dir == types.RecvOnly && isHeartbeat(st.Chan) {
+								recvsHeartbeat = true
+							}
+						}
+					}
+				}
+			}
+		}
+		if !recvsHeartbeat {
+			continue
+		}
+		var durs []ssa.Value
+		var sites []ssa.Instruction
+		for _, c := range p.callsIn(fn) {
+			sc := c.Common().StaticCallee()
+			if sc == nil || sc.Pkg == nil || sc.Pkg.Pkg.Path() != "time" {
+				continue
+			}
+			switch sc.Name() {
+			case "NewTimer", "After", "AfterFunc":
+				durs = append(durs, c.Common().Args[0])
+				sites = append(sites, c)
+			case "Reset":
+				if len(c.Common().Args) == 2 {
+					durs = append(durs, c.Common().Args[1])
+					sites = append(sites, c)
+				}
+			}
+		}
+		if len(durs) < 2 {
+			continue
+		}
+		bad := ""
+		for i := 1; i < len(durs); i++ {
+			if origin(durs[i]) != origin(durs[0]) && exprKey(durs[i]) != exprKey(durs[0]) {
+				bad = fmt.Sprintf("the watchdog is armed with %s at %s but with %s at %s: after a heartbeat it tolerates a different silence than before the first one (a process that sleeps its step delay looks dead)", displayKey(durs[0]), p.instrPos(sites[0]), displayKey(durs[i]), p.instrPos(sites[i]))
+			}
+		}
+		if bad != "" {
+			r.add(fnName(fn), "one-watchdog-duration", Violated, p.instrPos(sites[0]), bad)
+		} else {
+			r.add(fnName(fn), "one-watchdog-duration", Holds, p.instrPos(sites[0]), fmt.Sprintf("%d armings, one duration", len(durs)))
+		}
+	}
 	r.count("receives from the heartbeat channel", n)
 }
